@@ -105,7 +105,17 @@ class World(DuoWorld):
         self.rings = {"orig": ring_o, "resp": ring_r}
         self.rekeys_left = 0 if (flip or layout == "split-roles") else ch.choose(4, "nrekeys", (4, 2, 1, 1))
         self.resp_originates_left = 0 if flip else ch.choose(3, "n-resp-originates", (3, 1, 1))
-        orig = fwamp.ApplicationSession(ComponentConfig(realm="realm1"))
+        self.rejoin_left = 0 if flip else ch.choose(2, "n-rejoin", (3, 1))
+        world = self
+
+        class Rejoining(fwamp.ApplicationSession):
+            """an application that joins the realm again when the router closes its session (the transport stays)"""
+            def onLeave(self, details):
+                world.run.probe("originator-rejoins-after-router-GOODBYE")
+                world.run.log("app", "onLeave -> join again", details.reason)
+                return self.join(self.config.realm)
+
+        orig = Rejoining(ComponentConfig(realm="realm1"))
         resp = fwamp.ApplicationSession(ComponentConfig(realm="realm1"))
         orig.set_payload_codec(ring_o)
         resp.set_payload_codec(ring_r)
@@ -202,11 +212,39 @@ class World(DuoWorld):
             acts.append((1.5, "rekey", self.rekey))
         if self.resp_originates_left > 0:
             acts.append((1.0, "responder-originates", self.responder_originates))
+        if self.rejoin_left > 0 and self.ops and not self.queue and not self.unread(self.o) and not self.unread(self.r) \
+                and all(op.w is None or op.w.state()[0] != "pending" for op in self.ops) and self.o.session._session_id:
+            acts.append((0.8, "router-goodbye-and-rejoin", self.router_goodbye_rejoin))
         if self.unread(self.o) or self.unread(self.r):
             acts.append((4.0, "router-collect", self.collect))
         if self.queue:
             acts.append((4.0, "router-forward", self.forward))
         return acts
+
+    def router_goodbye_rejoin(self):
+        """the router closes the originator's session; the application joins again on the same transport.  The keyring
+        it installed once is still its keyring."""
+        from autobahn.wamp import role
+        M = self.M
+        self.rejoin_left -= 1
+        self.run.fault("router-goodbye-then-rejoin")
+        err = self.deliver_to(self.o, M.Goodbye("wamp.close.system_shutdown", "router restarts the realm"))
+        self.settle()
+        if err is not None:
+            self.run.violate("C20.explicit-error", "goodbye-raised:%s" % type(err).__name__, repr(err))
+            return
+        new = self.o.inbox[self.o.cursor:]
+        self.o.cursor = len(self.o.inbox)
+        if not any(isinstance(m, M.Hello) for m in new):
+            self.run.log("no-rejoin", [type(m).__name__ for m in new])
+            self.ops_left = 0
+            return
+        roles = {"broker": role.RoleBrokerFeatures(), "dealer": role.RoleDealerFeatures(progressive_call_results=True, call_canceling=True)}
+        self.deliver_to(self.o, M.Welcome(3100 + self.rejoin_left, roles, realm="realm1", authid="orig", authrole="user", authmethod="anonymous"))
+        self.settle()
+        self.o.cursor = len(self.o.inbox)
+        if self.o.session._session_id is None:
+            self.ops_left = 0
 
     def responder_originates(self):
         """The responder session is itself an originator on the same URIs now and then (a session is rarely only
